@@ -20,6 +20,19 @@ MOD = "mc.props.c09"
 ORIGINS = ["a", "b", "c"]
 
 
+class _RecList(list):
+    """Stands in for the pool's connection list: at each removal it records which connection goes and what the
+    list holds at that very moment (connection, is_idle()), so that a surplus close can be judged against the
+    state the pool decided on rather than against the state before or after the whole operation."""
+
+    def _mc_state(self):
+        return list(self)
+
+    def remove(self, c):
+        self.removals.append((c, [(x, bool(x.is_idle())) for x in self]))
+        list.remove(self, c)
+
+
 class KeepAliveHarness:
     horizon = 400
 
@@ -85,7 +98,7 @@ class KeepAliveHarness:
                     ops.append(("server_close", s["tid"]))
         return ops
 
-    def _judge_step(self, ex, op, pre, post, w, meta, before_ops, now_pre):
+    def _judge_step(self, ex, op, pre, post, w, meta, before_ops, now_pre, removals=()):
         limit = min(self.mc if self.mc is not None else 10 ** 9, self.mk if self.mk is not None else 10 ** 9)
         sig = {"harness": "keepalive", "proto": self.proto}
 
@@ -148,6 +161,27 @@ class KeepAliveHarness:
             if n_closed > surplus + evict:
                 viol("R4-unexplained-close", f"{n_closed} healthy idle connection(s) closed (pre-existing: {[s['tid'] for s in closed_healthy]}, own: {own_closed}); "
                      f"explained: surplus over keep-alive limit {surplus} (idle would be {H}, limit {limit}), eviction for room {evict}")
+            # R4 at the moment of decision: a healthy idle connection may leave the pool as keep-alive surplus only if the idle
+            # connections the pool holds at that moment outnumber the limit, or to make room at the connection limit
+            pre_by_tid = {s["tid"]: s for s in pre_live}
+            finished_now = used if op[0] == "request" else ({op[2]} if len(op) > 2 else set())
+            for c, listed in removals:
+                trs = sorted(reachable_transports(c))
+                tid = trs[0] if trs else None
+                s0 = pre_by_tid.get(tid)
+                if tid in finished_now and meta.get(tid, {}).get("clean_finish"):
+                    health = "healthy" if (self.expiry is None or self.expiry > 0) else "boundary"
+                elif s0 is not None and s0["idle"]:
+                    health = s0["health"]
+                else:
+                    continue
+                if health != "healthy" or not dict((id(x), i) for x, i in listed).get(id(c)):
+                    continue
+                n_idle = sum(1 for _, i in listed if i)
+                room = op[0] in ("request", "open") and len(listed) >= N
+                if n_idle <= limit and not room:
+                    viol("R4-removed-within-limit", f"healthy idle connection T{tid} was taken out of the pool while the pool held {n_idle} idle connection(s) "
+                         f"(keep-alive limit {limit}) and {len(listed)} connection(s) in all (max_connections={self.mc})")
 
     def run(self, chooser) -> Execution:
         topo = scen.Topology(scen.CONN_TYPES[self.ct])
@@ -157,6 +191,11 @@ class KeepAliveHarness:
         w = SeqWorld(chooser, topo.router, variant=self.variant, merge_roots=state_root, faults=0)
         pool = scen.make_pool(self.ct, w.backend, self.variant, max_connections=self.mc, max_keepalive_connections=self.mk,
                               keepalive_expiry=self.expiry)
+        if type(pool._connections) is not list:
+            raise engine.MachineryError("pool._connections is no longer a plain list: the removal recorder of C09 does not apply")
+        rec = _RecList(pool._connections)
+        rec.removals = []
+        pool._connections = rec
         w.roots.append(pool)
         ex = Execution()
         log = []
@@ -188,6 +227,7 @@ class KeepAliveHarness:
                 if k == len(ops):
                     break          # stop early (keeps the tree prefix-closed with choice 'stop' last)
                 op = ops[k]
+                del rec.removals[:]
                 before = len(w.net.ledger)
                 pre = snap
                 now_pre = w.env.time
@@ -234,7 +274,8 @@ class KeepAliveHarness:
                     res = ("ok", None)
                 post = self._snapshot(pool, w, meta)
                 log.append(op)
-                self._judge_step(ex, op, pre, post, w, meta, before, now_pre)
+                self._judge_step(ex, op, pre, post, w, meta, before, now_pre, list(rec.removals))
+                del rec.removals[:]
             # wind down
             for h in list(held):
                 yield ("close", h["cm"])
